@@ -18,7 +18,7 @@
 //	            "outcome": {"kind": "ret|declared|other|appexc", "value": <value>, "exc": "<pkg>.<Exc>",
 //	                        "msg": "<hex>", "type": <int32>},
 //	            "headers": {"<hex name>": "<hex value>"},
-//	            "tamper": {"name": "<hex>", "type": <int>}        (mem + binary only: rewrite the reply's message header)
+//	            "tamper": {"name": "<hex>", "type": <int>}        (mem + binary / compact: rewrite the reply's message header)
 //	           }, ...]}
 //
 // Response: {"code": 0, "calls": [{
@@ -168,6 +168,7 @@ type memTransport struct {
 	pf     *frugal.FProtocolFactory
 	rec    *recorder
 	tamper *tamperSpec
+	proto  string
 	closed chan error
 }
 
@@ -194,7 +195,11 @@ func (m *memTransport) roundTrip(data []byte) ([]byte, error) {
 	frame := append([]byte{}, out.Bytes()...)
 	m.rec.addReply(frame)
 	if m.tamper != nil {
-		frame = tamperFrame(frame, m.tamper)
+		if m.proto == "compact" {
+			frame = tamperFrameCompact(frame, m.tamper)
+		} else {
+			frame = tamperFrame(frame, m.tamper)
+		}
 	}
 	return frame, nil
 }
@@ -247,6 +252,53 @@ func tamperFrame(frame []byte, t *tamperSpec) []byte {
 	body.Write(w[:])
 	binary.BigEndian.PutUint32(w[:], uint32(len(name)))
 	body.Write(w[:])
+	body.Write(name)
+	body.Write(rest)
+	out := make([]byte, 4, 4+body.Len())
+	binary.BigEndian.PutUint32(out, uint32(body.Len()))
+	return append(out, body.Bytes()...)
+}
+
+// tamperFrameCompact does the same on a TCompactProtocol message header: 0x82, version | type << 5 (three bits of
+// the type travel, as in WriteMessageBegin), varint seqid, varint length + name.
+func tamperFrameCompact(frame []byte, t *tamperSpec) []byte {
+	if len(frame) < 9 {
+		return frame
+	}
+	hsize := int(binary.BigEndian.Uint32(frame[5:9]))
+	p := 9 + hsize
+	if len(frame) < p+4 || frame[p] != 0x82 {
+		return frame
+	}
+	vt := frame[p+1]
+	q := p + 2
+	_, n := binary.Uvarint(frame[q:]) // seqid
+	if n <= 0 {
+		return frame
+	}
+	seq := frame[q : q+n]
+	q += n
+	nlen, n2 := binary.Uvarint(frame[q:])
+	if n2 <= 0 || len(frame) < q+n2+int(nlen) {
+		return frame
+	}
+	name := frame[q+n2 : q+n2+int(nlen)]
+	rest := frame[q+n2+int(nlen):]
+	if t.Type != nil {
+		vt = (vt & 0x1f) | ((byte(*t.Type) << 5) & 0xe0)
+	}
+	if t.Name != nil {
+		if b, err := hex.DecodeString(*t.Name); err == nil {
+			name = b
+		}
+	}
+	var body bytes.Buffer
+	body.Write(frame[4:p])
+	body.WriteByte(0x82)
+	body.WriteByte(vt)
+	body.Write(seq)
+	var w [binary.MaxVarintLen64]byte
+	body.Write(w[:binary.PutUvarint(w[:], uint64(len(name)))])
 	body.Write(name)
 	body.Write(rest)
 	out := make([]byte, 4, 4+body.Len())
@@ -649,7 +701,7 @@ func session(reg *labdriver.Registry, raw json.RawMessage) interface{} {
 	var mem *memTransport
 	switch q.Transport {
 	case "", "mem":
-		mem = &memTransport{proc: proc, pf: pf, rec: rec, closed: make(chan error)}
+		mem = &memTransport{proc: proc, pf: pf, rec: rec, proto: q.Proto, closed: make(chan error)}
 		lk = &memLink{mem}
 	case "tcp":
 		lk, err = newTCPLink(proc, pf, rec)
